@@ -11,9 +11,10 @@ from harness.c06 import make_visitor
 from harness.zoo import Cur, rd
 from safeds_stubgen.api_analyzer._api import QualifiedImport
 from safeds_stubgen.api_analyzer._ast_visitor import MyPyAstVisitor
-from safeds_stubgen.api_analyzer._types import NamedType
+from safeds_stubgen.api_analyzer._api import TypeParameter, VarianceKind
+from safeds_stubgen.api_analyzer._types import NamedType, TypeVarType
 from vlib import shim
-from vlib.gapi import INT, generate, mk_api, mk_class, mk_function, mk_init_module, mk_module
+from vlib.gapi import INT, PA, generate, mk_api, mk_class, mk_function, mk_init_module, mk_module
 from vlib.hsupport import OutOfRange, fixed, judge, note, untraced
 from vlib.permset import PermSet, permuted
 
@@ -26,7 +27,7 @@ def _dec_reexport(sel):
     chosen = [i for i in range(len(INIT_IDS)) if rd(sel, cur, 2) == 1]
     if not (2 <= len(chosen) <= 3):
         raise OutOfRange
-    alias = [rd(sel, cur, 2) == 1 for _ in chosen]
+    alias = [rd(sel, cur, 4) for _ in chosen]  # import form: by name / with alias / star import of the module / alias AND star
     return chosen, alias, 1 + rd(sel, cur, 5)
 
 
@@ -79,7 +80,9 @@ def shortest_reexport(sel: List[int]) -> bool:
         with permuted(order):
             api = mk_api()
             for j, i in enumerate(chosen):
-                mk_init_module(api, INIT_IDS[i], imports=[("pkg.a.c.m.X", f"Alias{j}" if alias[j] else None)])
+                form = alias[j]
+                imports = [] if form == 2 else [("pkg.a.c.m.X", f"Alias{j}" if form in (1, 3) else None)]
+                mk_init_module(api, INIT_IDS[i], imports=imports, wildcards=["pkg.a.c.m"] if form >= 2 else [])
             return HLP._get_shortest_public_reexport(api.reexport_map, "X", "pkg.a.c.m.X", False)
 
     a, b = run(0), run(k)
@@ -174,11 +177,17 @@ def module_order(sel: List[int]) -> bool:
             if mid == "pkg/m":
                 t = [NamedType("X", "pkg.n.X"), NamedType("X", "X"), INT][ref_kind]
                 mk_function(api, m, "f", params=[{"name": "p", "type_": t}], results=[("result_1", INT)])
+                # a non-generic class with a method that has its own type variable T
+                tv = TypeVarType("T", None)
+                k = mk_class(api, m, "Plain")
+                mk_function(api, k, "tag", params=[{"name": "self", "kind": PA.IMPLICIT}, {"name": "label", "type_": tv}],
+                            results=[("result_1", tv)], type_vars=[tv])
             elif mid == "pkg/n":
                 if second == 2:
                     mk_function(api, m, "g", results=[("result_1", INT)])
                 else:
-                    mk_class(api, m, ["X", "XFoo"][second])
+                    # the class of pkg.n is generic in T (type parameter shown in the class header)
+                    mk_class(api, m, ["X", "XFoo"][second], type_parameters=[TypeParameter("T", None, VarianceKind.INVARIANT)])
             else:
                 mk_class(api, m, "X")
         return api
